@@ -11,8 +11,7 @@ fn in_lang_domain(l: &str) -> bool {
     l.len() == 3 && l.bytes().all(|b| b.is_ascii_lowercase())
 }
 
-pub fn check_config(prop: &str, sim: &SimRef, sc: &MuxScenario, model: &Model, strict_domain: bool, out: &mut Vec<Violation>) {
-    let size = sim.borrow().disk.len();
+pub fn check_config(prop: &str, sim: &SimRef, sc: &MuxScenario, size: u64, model: &Model, strict_domain: bool, out: &mut Vec<Violation>) {
     let p = match Player::open(sim, sc.start_pos, size, 20_000) {
         Opened::Ok(p) => p,
         Opened::Err(e) => {
